@@ -184,7 +184,8 @@ static void do_ens()
     const double yc = -(double)pmin / delta;
     std::normal_distribution<double> nd(0.0, 1.0);
     std::vector<PhaseSpace::Position> ps(np);
-    for (auto& p : ps) { p.x = (n - 1) / 2.0f; p.y = (float)(yc + nd(g) / delta); }
+    // loaded as main.cpp loads a tracking file: PhaseSpace::x(q), y(p) (which clamp to the grid)
+    for (auto& p : ps) { p.x = in->x(0.0f); p.y = in->y((float)nd(g)); }
     SourceMap* sm = &fpm;
     printf("case %s\ninfo", id.c_str());
     pd(yc); pd(delta); pf(in->getAxis(1)->zerobin());
